@@ -730,7 +730,7 @@ def retis_cases(ctx):
                   "scripts": [(None, [(-1, (0, 0), None)] * 4), (None, [(-1, (0, 0), None), (1, (0, 0), None), (1, (0, 0), None)])],
                   "xi": Fraction(0)})
     # random: longer paths, wf moves, caps, vel_rev flags, unpadded (ending) programs, malformed input
-    nrand = 15000 if quick else 200000
+    nrand = 15000 if quick else 150000
     for _ in range(nrand):
         vn, i0, sc = rng.choice(variants)
         if rng.random() < 0.1:
@@ -1339,7 +1339,7 @@ def _run(ctx, W):
         fs = {}
         r = W.run(c, fs=fs)
         results.append(r)
-        if k % (9 if ctx.quick else 4) == 0:
+        if k % (9 if ctx.quick else 8) == 0:
             ll.check(ctx, W, c, r)
         if after_rejection(ctx, W, c, r, fs):
             ctx.count(1, branch="retis:second-move-after-rejection")
